@@ -26,12 +26,12 @@ type Attr struct {
 	TEnc   string    `json:"tenc,omitempty"` // raw | typed
 }
 
-func AInt(name string, v int64) Attr        { return Attr{Name: name, Kind: "int", I: v} }
-func AInts(name string, v ...int64) Attr    { return Attr{Name: name, Kind: "ints", Ints: v} }
-func AFloat(name string, v float32) Attr    { return Attr{Name: name, Kind: "float", F: v} }
+func AInt(name string, v int64) Attr         { return Attr{Name: name, Kind: "int", I: v} }
+func AInts(name string, v ...int64) Attr     { return Attr{Name: name, Kind: "ints", Ints: v} }
+func AFloat(name string, v float32) Attr     { return Attr{Name: name, Kind: "float", F: v} }
 func AFloats(name string, v ...float32) Attr { return Attr{Name: name, Kind: "floats", Floats: v} }
-func AStr(name string, v string) Attr       { return Attr{Name: name, Kind: "string", S: v} }
-func AStrs(name string, v ...string) Attr   { return Attr{Name: name, Kind: "strings", Strs: v} }
+func AStr(name string, v string) Attr        { return Attr{Name: name, Kind: "string", S: v} }
+func AStrs(name string, v ...string) Attr    { return Attr{Name: name, Kind: "strings", Strs: v} }
 func ATensor(name string, t *ref.T, enc string) Attr {
 	return Attr{Name: name, Kind: "tensor", T: ToTJ(t), TEnc: enc}
 }
